@@ -729,6 +729,19 @@ class OverlapRunner:
                 if kind == "e":
                     dev.dispatch_nowait("frame_errors", [FrameType(k) if is_known_frame_type(k) else k for k in body])
                     events.append(["e" + (",".join(map(str, body)) or "-")])
+                elif kind == "k":
+                    # device.shutdown() (what AsyncProtocol.shutdown / a lost connection does to every device): run to its end while the
+                    # executor jobs stay held; afterwards the jobs of the cancelled handlers are let go (their futures are cancelled)
+                    t = self.loop.create_task(dev.shutdown())
+                    self.loop.settle()
+                    if not t.done():
+                        raise ValueError("device.shutdown() did not return with executor jobs held")
+                    t.result()
+                    while self.loop.held:
+                        self.loop.release(0)
+                        self.loop.settle()
+                    owners.clear()
+                    events.append(["k"])
                 elif kind in "sr":
                     payload = sensor_payload(body) if kind == "s" else regdata_payload(body)
                     cls = SensorDataMessage if kind == "s" else RegulatorDataMessage
@@ -787,6 +800,46 @@ def run_overlap(res, rng, n_cases):
         for ops in fixed:
             ev, obs, _ = runner.run_case(ops)
             cases.append((ops, ev, obs, "overlap-fixed"))
+        # one device object shut down (tasks cancelled) and used again: a reconnect keeps the devices
+        fixed_k = [ln for _, ln in load_corpus("C15") if ln.startswith("cancel ")]
+        for ln in fixed_k:
+            ops = parse_overlap(ln[len("cancel "):])
+            ev, obs, _ = runner.run_case(ops)
+            cases.append((ops, ev, obs, "shutdown-corpus"))
+        for _ in range(max(40, n_cases // 2)):
+            ops = []
+            n = 0
+            kinds = rng.sample(REQUESTS, rng.randint(1, 3))
+            vers = {k: rng.choice([1, 2, 7]) for k in kinds}
+            if rng.random() < 0.3:
+                ops.append(("e", rng.sample(SETUP, rng.choice([0, 1, 2]))))
+            shutdowns = 0
+            for _ in range(rng.randint(3, 11)):
+                _, _, pending = runner.run_case(ops)
+                u = rng.random()
+                if pending and u < 0.3 and shutdowns < 2 or (not pending and u < 0.08 and shutdowns < 2):
+                    ops.append(("k", None))
+                    shutdowns += 1
+                elif pending and u < 0.55:
+                    ops.append(("x", rng.choice(pending)))
+                elif n < 6:
+                    # mostly the SAME versions again (the controller keeps announcing what it has), sometimes a step
+                    if rng.random() < 0.25:
+                        k = rng.choice(kinds)
+                        vers[k] += 1
+                    body = [(k, vers[k]) for k in rng.sample(kinds, rng.randint(1, len(kinds)))]
+                    ops.append((rng.choice("sr"), body))
+                    n += 1
+            if shutdowns == 0:
+                ops.append(("k", None))
+                ops.append((rng.choice("sr"), [(k, vers[k]) for k in kinds]))
+            for _ in range(12):
+                _, _, pending = runner.run_case(ops)
+                if not pending:
+                    break
+                ops.append(("x", pending[0] if rng.random() < 0.5 else pending[-1]))
+            ev, obs, _ = runner.run_case(ops)
+            cases.append((ops, ev, obs, "shutdown-random"))
         for _ in range(n_cases):
             # generate online: after every op ask the implementation which tasks are suspended
             ops = []
@@ -818,7 +871,36 @@ def run_overlap(res, rng, n_cases):
     check_overlap(res, cases)
 
 
-def overlap_statement(ops, obs):
+def cancelled_tasks(ops, obs):
+    """task indices whose handler was suspended when the device was shut down"""
+    out = set()
+    for i, (kind, _) in enumerate(ops):
+        if kind == "k" and i > 0:
+            ph = obs[i - 1].split("/")[2]
+            out |= {a for a, x in enumerate(ph.split(",")) if x == "w"} if ph != "-" else set()
+    return out
+
+
+def cancel_statement(ops, obs):
+    """Histories with shutdowns, from the observations alone.  "One refresh request is queued and the new version is recorded" belong
+    together: whenever no handler is suspended (all finished or cancelled), every version on record for a kind has a request of that
+    kind among the frames queued so far (theorem C15.Overlap.recorded_has_request: in the code a cancelled refresh records nothing)."""
+    out = []
+    for i, o in enumerate(obs):
+        q, rec, ph = o.split("/")
+        if "w" in ph.split(",") or rec == "-":
+            continue
+        qs = [] if q == "-" else q.split(",")
+        for e in rec.split(","):
+            k, v = e.split(":")
+            if k not in qs:
+                out.append(f"after op #{i} (no handler suspended): version {v} is on record for kind {k}, but no request of kind {k} was ever queued")
+        if out:
+            break
+    return out
+
+
+def overlap_statement(ops, obs, skip=()):
     """The statement on an overlap history, from the observations alone (sound for ANY interleaving): take an announcement made
     of supported request kinds only.  Its handler runs at once up to the FIRST entry (k, v) whose version differs from the record
     as observed just before the announcement ("a version different from the one the library last recorded"), and suspends there
@@ -834,6 +916,8 @@ def overlap_statement(ops, obs):
         if kind not in "sr":
             continue
         n_task += 1
+        if n_task in skip:
+            continue
         if any(k not in REQUESTS for k, _ in body):
             continue
         before = obs[i - 1].split("/") if i > 0 else ["-", "-", "-"]
@@ -860,19 +944,25 @@ def parse_overlap(text):
     for w in text.split():
         if w[0] == "x":
             ops.append(("x", int(w[1:])))
+        elif w == "k":
+            ops.append(("k", None))
         else:
             ops.extend(parse_case(w))
     return ops
 
 
 def check_overlap(res, cases):
-    answers = driver_batch(" ".join(["c15o"] + [e for grp in ev for e in grp]) for _, ev, _, _ in cases)
+    answers = driver_batch(" ".join(["c15h" if any(k == "k" for k, _ in ops) else "c15o"] + [e for grp in ev for e in grp]) for ops, ev, _, _ in cases)
     doubled = 0
     for (ops, ev, obs, label), ans in zip(cases, answers):
         text = " ".join((k + (",".join(f"{a}:{b}" for a, b in body) or "-")) if k in "sr" else
-                        ("e" + (",".join(map(str, body)) or "-")) if k == "e" else f"x{body}" for k, body in ops)
+                        ("e" + (",".join(map(str, body)) or "-")) if k == "e" else "k" if k == "k" else f"x{body}" for k, body in ops)
         res.case("overlap " + text, len(ops) >= 3)
         res.count("label:" + label)
+        with_shutdown = any(k == "k" for k, _ in ops)
+        if with_shutdown:
+            res.count("overlap: device shut down " + ("while a handler is suspended in Request.create" if cancelled_tasks(ops, obs) else "with no handler suspended")
+                      + (", announcements afterwards" if any(k in "sr" for k, _ in ops[max(i for i, (k, _) in enumerate(ops) if k == "k"):]) else ""))
         model_all = [] if ans == "." else ans.split(";")
         # the model prints a state after every event; an op is one or two events
         model, pos = [], 0
@@ -882,7 +972,10 @@ def check_overlap(res, cases):
             q, r, t = st.split("/")
             t = ",".join("w" if x.startswith("w") else "c" if x == "c" else "f" for x in t.split(",")) if t != "-" else "-"
             model.append(f"{q}/{r}/{t}")
-        for msg in overlap_statement(ops, obs):
+        for msg in (cancel_statement(ops, obs) if with_shutdown else []):
+            res.fail("spec", dict(case="overlap " + text, label=label), "a version is on record only together with a queued refresh request of that kind",
+                     dict(observed=obs, what=msg), "a version was recorded for a kind although no refresh request of that kind was queued (the refresh was cancelled by a shutdown)")
+        for msg in overlap_statement(ops, obs, skip=cancelled_tasks(ops, obs)):
             res.fail("spec", dict(case="overlap " + text, label=label), "every announcement whose version differs from the record is refreshed and recorded",
                      dict(observed=obs, what=msg), "an announcement with a version different from the recorded one queued no refresh / was never recorded")
         if any(len(set(v for kk, b in ops if kk in "sr" for a, v in b if a == k0)) > 1 for k0 in set(a for kk, b in ops if kk in "sr" for a, _ in b)):
@@ -1054,7 +1147,7 @@ def run(ctx):
                 "once-subscribers that raise; executor jobs (the class import of every Request.create) completing at once or only when the loop is idle; "
                 "a section with TWO devices (EcoMAX 0x45, EcoSTER 0x51) on one write queue, the same kinds announced to both in turn, recipients observed. distinct = distinct history text; non-trivial = >= 2 announcements, "
                 "at least one that queued a request and one that queued nothing")
-    cases = [(parse_case(ln), "corpus") for _, ln in load_corpus("C15") if not ln.startswith("devices") and not ln.startswith("setup")]
+    cases = [(parse_case(ln), "corpus") for _, ln in load_corpus("C15") if not ln.startswith("devices") and not ln.startswith("setup") and not ln.startswith("cancel ")]
     cases.extend(gen_cases(rng, ctx["tier"]))
     if ctx.get("max_cases"):
         cases = cases[: ctx["max_cases"]]
